@@ -1,9 +1,9 @@
 (* Props/C01.v — property C01: rolling moments and weighted averages equal from-scratch window
    evaluation.  Carrier XR = option R (exact reals + one absorbing NaN), every series, every window
    w >= 1, every min_periods, every position, both driver bodies.  Statements only.            *)
-From Coq Require Import Reals List.
+From Coq Require Import Reals Lra List.
 From Tevec Require Import Base.Prelude Base.Num Base.XR Spec.Stats Model.Driver Model.Features
-     Model.Fdiff Proofs.Features Proofs.Fdiff.
+     Model.Fdiff Proofs.Features Proofs.Fdiff Proofs.Fdiff2 Proofs.Features2.
 Import ListNotations.
 
 (* (0) the accumulator never drifts: at emit time of every step it holds exactly the count and the
@@ -207,6 +207,288 @@ Theorem C01_plain_family_wma :
     = ts_run (ts_vwma_f (DT := IsNoneXR) w mp) body w (map Some rs).
 Proof. exact plain_family_wma. Qed.
 
+(* ---------------------------------------------------------------------------------------------
+   (9) the null-aware fractional difference ts_vfdiff.  What the code does, faithfully:
+       n = number of non-null elements of the window max(0,i-w+1)..=i; null iff
+       n < min(min_periods.unwrap_or(w/2), w); otherwise the nulls are COMPACTED OUT and the k-th most
+       recent VALID element gets (-1)^k C(d,k) — a null shifts the weights of all older elements,
+       and a null in the current position does not null the output.                            *)
+Theorem C01_ts_vfdiff :
+  forall (body : bool) (d : R) (w : nat) (mp : option nat) (xs : list XR), 1 <= w ->
+    exists out, ts_vfdiff (DT := IsNoneXR) body (Some d) w mp xs = Done out /\
+      length out = length xs /\
+      forall i, i < length xs ->
+        nth_error out i =
+        Some (let V := valid (win w i xs) in
+              if mp_eff mp w 0 <=? length V then Some (fdiffR d V) else None).
+Proof. exact ts_vfdiff_spec. Qed.
+
+(* the same with the sum written out: V_(k) = k-th most recent valid element of the window *)
+Theorem C01_ts_vfdiff_textbook :
+  forall (body : bool) (d : R) (w : nat) (mp : option nat) (xs : list XR), 1 <= w ->
+    exists out, ts_vfdiff (DT := IsNoneXR) body (Some d) w mp xs = Done out /\
+      length out = length xs /\
+      forall i, i < length xs ->
+        nth_error out i =
+        Some (let V := valid (win w i xs) in
+              if mp_eff mp w 0 <=? length V
+              then Some (sumR (map (fun k => (-1) ^ k * binomR d k * nth (length V - 1 - k) V 0)
+                                   (seq 0 (length V))))%R
+              else None).
+Proof. exact ts_vfdiff_textbook. Qed.
+
+(* plain ts_fdiff in the coordinates of the series: sum_{k < min(i+1,w)} (-1)^k C(d,k) x_{i-k} *)
+Theorem C01_ts_fdiff_textbook :
+  forall (body : bool) (d : R) (w : nat) (rs : list R), 1 <= w ->
+    exists out, ts_fdiff body (Some d) w (fun x : XR => x) (map Some rs) = Done out /\
+      length out = length rs /\
+      forall i, i < length rs ->
+        nth_error out i =
+        Some (Some (sumR (map (fun k => (-1) ^ k * binomR d k * nth (i - k) rs 0)
+                              (seq 0 (Nat.min (S i) w))))%R).
+Proof. exact ts_fdiff_textbook. Qed.
+
+(* fdiffR itself, recursively and positionally (weights by distance from the END of the window) *)
+Theorem C01_fdiffR_cons :
+  forall (d x : R) (l : list R), (fdiffR d (x :: l) = x * fdiff_weight d (length l) + fdiffR d l)%R.
+Proof. exact fdiffR_cons. Qed.
+
+Theorem C01_fdiffR_positional :
+  forall (d : R) (l : list R),
+    fdiffR d l
+    = sumR (map (fun k => fdiff_weight d k * nth (length l - 1 - k) l 0)%R (seq 0 (length l))).
+Proof. exact fdiffR_nth. Qed.
+
+(* the output at i depends on the valid elements of the window only: where the nulls sit, the
+   current position included, is irrelevant *)
+Theorem C01_vfdiff_depends_on_valid_only :
+  forall (body : bool) (d : R) (w : nat) (mp : option nat) (xs ys : list XR) (i : nat),
+    1 <= w -> i < length xs -> i < length ys ->
+    valid (win w i xs) = valid (win w i ys) ->
+    forall ox oy,
+      ts_vfdiff (DT := IsNoneXR) body (Some d) w mp xs = Done ox ->
+      ts_vfdiff (DT := IsNoneXR) body (Some d) w mp ys = Done oy ->
+      nth_error ox i = nth_error oy i.
+Proof. exact vfdiff_depends_on_valid_only. Qed.
+
+(* the surprise pinned on concrete windows (d = 1, w = 3, min_periods 1):
+   [1; null; 3] -> 3 - 1 = 2 although x_0 is two steps back (positional weighting would give 3);
+   [1; 3; null] -> 2, not null, although the current element is null *)
+Theorem C01_vfdiff_nulls_shift_weights :
+  forall body : bool,
+    exists out, ts_vfdiff (DT := IsNoneXR) body (Some 1%R) 3 (Some 1) [Some 1%R; None; Some 3%R] = Done out /\
+      nth_error out 2 = Some (Some 2%R) /\
+      fdiff_positional 1 [Some 1%R; None; Some 3%R] = 3%R.
+Proof. exact vfdiff_nulls_shift_weights. Qed.
+
+Theorem C01_vfdiff_current_null_not_null :
+  forall body : bool,
+    exists out, ts_vfdiff (DT := IsNoneXR) body (Some 1%R) 3 (Some 1) [Some 1%R; Some 3%R; None] = Done out /\
+      nth_error out 2 = Some (Some 2%R).
+Proof. exact vfdiff_current_null_not_null. Qed.
+
+(* ---------------------------------------------------------------------------------------------
+   (10) the coefficient table fdiff_coef d w                                                   *)
+(* length w, for EVERY numeric carrier (binary64 included) *)
+Theorem C01_fdiff_coef_length :
+  forall (A : Type) (NA : Num A) (d : A) (w : nat), length (fdiff_coef d w) = w.
+Proof. exact (@fdiff_coef_length). Qed.
+
+(* C(d,k) is the generalised binomial product, with the usual recurrence *)
+Theorem C01_binom_product :
+  forall (d : R) (k : nat),
+    binomR d k = prodR (map (fun i => (d - INR i) / INR (S i))%R (seq 0 k)).
+Proof. exact binomR_prod. Qed.
+
+Theorem C01_binom_recurrence :
+  forall (d : R) (k : nat),
+    binomR d 0 = 1%R /\ (binomR d (S k) = binomR d k * ((d - INR k) / INR (S k)))%R.
+Proof. intros d k. split; [apply binomR_0|apply binomR_S]. Qed.
+
+(* coefficient k, counted from the most recent element (table index w-1-k), is (-1)^k C(d,k) *)
+Theorem C01_fdiff_coef_nth :
+  forall (d : R) (w k : nat), k < w ->
+    nth_error (fdiff_coef (Some d) w) (w - 1 - k) = Some (Some ((-1) ^ k * binomR d k)%R).
+Proof. exact fdiff_coef_nth. Qed.
+
+(* the most recent element has weight 1 *)
+Theorem C01_fdiff_coef_last :
+  forall (d : R) (w : nat), 1 <= w -> nth_error (fdiff_coef (Some d) w) (w - 1) = Some (Some 1%R).
+Proof. exact fdiff_coef_last. Qed.
+
+(* integer order n: binomial numbers up to n, exactly 0 beyond *)
+Theorem C01_fdiff_coef_integer_binomial :
+  forall (n w k : nat), k <= n -> k < w ->
+    nth_error (fdiff_coef (Some (INR n)) w) (w - 1 - k) = Some (Some ((-1) ^ k * C n k)%R).
+Proof. exact fdiff_coef_nat_binomial. Qed.
+
+Theorem C01_fdiff_coef_integer_vanish :
+  forall (n w k : nat), n < k -> k < w ->
+    nth_error (fdiff_coef (Some (INR n)) w) (w - 1 - k) = Some (Some 0%R).
+Proof. exact fdiff_coef_nat_vanish. Qed.
+
+(* ... so an integer-order fractional difference is the (window-truncated) n-th finite difference *)
+Theorem C01_fdiff_integer_order :
+  forall (n : nat) (l : list R),
+    fdiffR (INR n) l
+    = sumR (map (fun k => (-1) ^ k * C n k * nth (length l - 1 - k) l 0)%R
+                (seq 0 (Nat.min (S n) (length l)))).
+Proof. exact fdiffR_nat. Qed.
+
+Theorem C01_fdiff_order0_identity :
+  forall l : list R, l <> [] -> fdiffR 0 l = last l 0%R.
+Proof. exact fdiffR_d0. Qed.
+
+(* d = 1: the table is [0; ..; 0; -1; 1] and ts_fdiff (w >= 2) is the first difference *)
+Theorem C01_fdiff_coef_d1 :
+  forall w : nat, 2 <= w ->
+    fdiff_coef (Some 1%R) w = repeat (Some 0%R) (w - 2) ++ [Some (-1)%R; Some 1%R].
+Proof. exact fdiff_coef_d1. Qed.
+
+Theorem C01_ts_fdiff_d1_first_difference :
+  forall (body : bool) (w : nat) (rs : list R), 2 <= w ->
+    exists out, ts_fdiff body (Some 1%R) w (fun x : XR => x) (map Some rs) = Done out /\
+      length out = length rs /\
+      forall i, i < length rs ->
+        nth_error out i =
+        Some (Some (match i with O => nth 0 rs 0 | S j => nth (S j) rs 0 - nth j rs 0 end)%R).
+Proof. exact ts_fdiff_d1_first_difference. Qed.
+
+(* ---------------------------------------------------------------------------------------------
+   (11) plain entry points = null-aware twins on null-free input, entry point by entry point.
+        For fdiff the twin additionally masks the positions with i + 1 < effective min_periods.  *)
+Theorem C01_plain_fdiff_vs_vfdiff :
+  forall (body : bool) (d : R) (w : nat) (mp : option nat) (rs : list R), 1 <= w ->
+    exists outp outv,
+      ts_fdiff body (Some d) w (fun x : XR => x) (map Some rs) = Done outp /\
+      ts_vfdiff (DT := IsNoneXR) body (Some d) w mp (map Some rs) = Done outv /\
+      length outp = length rs /\ length outv = length rs /\
+      forall i, i < length rs ->
+        nth_error outv i =
+        if mp_eff mp w 0 <=? Nat.min (S i) w then nth_error outp i else Some None.
+Proof. exact plain_fdiff_vs_vfdiff. Qed.
+
+Theorem C01_plain_family_fdiff :
+  forall (body : bool) (d : R) (w : nat) (mp : option nat) (rs : list R),
+    1 <= w -> mp_eff mp w 0 <= 1 ->
+    ts_fdiff body (Some d) w (fun x : XR => x) (map Some rs)
+    = ts_vfdiff (DT := IsNoneXR) body (Some d) w mp (map Some rs).
+Proof. exact plain_family_fdiff. Qed.
+
+Theorem C01_vfdiff_warmup_mask :
+  forall (body : bool) (d : R) (w : nat) (mp : option nat) (rs : list R), 1 <= w ->
+    exists outv, ts_vfdiff (DT := IsNoneXR) body (Some d) w mp (map Some rs) = Done outv /\
+      forall i, i < length rs -> S i < mp_eff mp w 0 -> nth_error outv i = Some None.
+Proof. exact vfdiff_warmup_mask. Qed.
+
+Theorem C01_plain_equals_null_aware :
+  forall (body : bool) (w : nat) (mp : option nat) (d : R) (rs : list R), 1 <= w ->
+    let xs := map Some rs in
+    ts_run (ts_vsum_f (DT := IsNone_never) w mp) body w xs = ts_run (ts_vsum_f (DT := IsNoneXR) w mp) body w xs /\
+    ts_run (ts_vmean_f (DT := IsNone_never) w mp) body w xs = ts_run (ts_vmean_f (DT := IsNoneXR) w mp) body w xs /\
+    ts_run (ts_vvar_f (DT := IsNone_never) w mp) body w xs = ts_run (ts_vvar_f (DT := IsNoneXR) w mp) body w xs /\
+    ts_run (ts_vstd_f (DT := IsNone_never) w mp) body w xs = ts_run (ts_vstd_f (DT := IsNoneXR) w mp) body w xs /\
+    ts_run (ts_vskew_f (DT := IsNone_never) w mp) body w xs = ts_run (ts_vskew_f (DT := IsNoneXR) w mp) body w xs /\
+    ts_run (ts_vkurt_f (DT := IsNone_never) w mp) body w xs = ts_run (ts_vkurt_f (DT := IsNoneXR) w mp) body w xs /\
+    ts_run (ts_vewm_f (DT := IsNone_never) w mp) body w xs = ts_run (ts_vewm_f (DT := IsNoneXR) w mp) body w xs /\
+    ts_run (ts_vwma_f (DT := IsNone_never) w mp) body w xs = ts_run (ts_vwma_f (DT := IsNoneXR) w mp) body w xs /\
+    (mp_eff mp w 0 <= 1 ->
+     ts_fdiff body (Some d) w (fun x : XR => x) xs = ts_vfdiff (DT := IsNoneXR) body (Some d) w mp xs).
+Proof. exact plain_equals_null_aware. Qed.
+
+(* ---------------------------------------------------------------------------------------------
+   (12) the EPS floor of ts_vstd, and the zero-variance branches                               *)
+(* ts_vstd returns 0 where the textbook sample std is at most sqrt(2 EPS) ~ 1.41e-7 *)
+Theorem C01_eps_floor_bounded_std :
+  forall V : list R, 2 <= length V -> ~ (EPS < popvarR V)%R ->
+    (0 <= samplestdR V <= sqrt (2 * EPS))%R.
+Proof. exact eps_floor_bounded_std. Qed.
+
+(* `var > EPS` (var/std) and `var <= EPS` (skew/kurt) split the windows the same way *)
+Theorem C01_floor_guards_agree :
+  forall p : R, ~ (EPS < p)%R <-> (p <= EPS)%R.
+Proof. exact floor_guards_agree. Qed.
+
+(* a constant window has population variance exactly 0, so it is always in the floored class *)
+Theorem C01_popvar_constant :
+  forall (c : R) (n : nat), popvarR (repeat c n) = 0%R.
+Proof. exact popvar_constant. Qed.
+
+(* on a window with population variance <= EPS all four entry points return exactly 0 (never null,
+   never the 0/0 of the textbook skewness / kurtosis), min_periods permitting *)
+Theorem C01_zero_variance_outputs :
+  forall (body : bool) (w : nat) (mp : option nat) (xs : list XR), 1 <= w ->
+    exists ovar ostd oskew okurt,
+      ts_run (ts_vvar_f w mp) body w xs = Done ovar /\
+      ts_run (ts_vstd_f w mp) body w xs = Done ostd /\
+      ts_run (ts_vskew_f w mp) body w xs = Done oskew /\
+      ts_run (ts_vkurt_f w mp) body w xs = Done okurt /\
+      forall i, i < length xs ->
+        let V := valid (win w i xs) in
+        (popvarR V <= EPS)%R ->
+        (mp_eff mp w 2 <= length V ->
+           nth_error ovar i = Some (Some 0%R) /\ nth_error ostd i = Some (Some 0%R)) /\
+        (mp_eff mp w 3 <= length V -> nth_error oskew i = Some (Some 0%R)) /\
+        (mp_eff mp w 4 <= length V -> nth_error okurt i = Some (Some 0%R)).
+Proof. exact zero_variance_outputs. Qed.
+
+(* ---------------------------------------------------------------------------------------------
+   (13) the exponentially weighted mean is null exactly on windows without a valid element: the
+        denominator of (4) vanishes iff n = 0, so (4) reads "weighted average, null iff empty"   *)
+Theorem C01_ewm_denominator_zero_iff :
+  forall (w n : nat), 1 <= w -> n <= w -> ((1 - (1 - 2 / INR w) ^ n)%R = 0%R <-> n = 0).
+Proof. exact ewm_denominator_zero_iff. Qed.
+
+Theorem C01_ts_vewm_total :
+  forall (w : nat) (mp : option nat) (body : bool) (xs : list XR), 1 <= w ->
+    exists out, ts_run (ts_vewm_f w mp) body w xs = Done out /\ length out = length xs /\
+      forall i, i < length xs ->
+        nth_error out i =
+        Some (let V := valid (win w i xs) in
+              if mp_eff mp w 0 <=? length V
+              then (if length V =? 0 then None else Some (ewmR (1 - 2 / INR w) V))
+              else None).
+Proof. exact ts_vewm_total. Qed.
+
+(* (14) window = 0 is rejected by both fractional differences, for every carrier: this is why the
+        theorems above ask 1 <= w *)
+Theorem C01_fdiff_window0 :
+  forall (A : Type) (NA : Num A) (T : Type) (DT : IsNone T A) (d : A) (cast : T -> A)
+         (mp : option nat) (xs : list T),
+    ts_fdiff false d 0 cast xs = Panicked Underflow /\
+    ts_vfdiff false d 0 mp xs = Panicked Underflow /\
+    (xs <> [] -> ts_fdiff true d 0 cast xs = Panicked AssertFail /\
+                 ts_vfdiff true d 0 mp xs = Panicked AssertFail).
+Proof. exact (@fdiff_window0). Qed.
+
+(* ---------------------------------------------------------------------------------------------
+   (15) the weights in the form of the fractional-differencing literature, and the repository's
+        own unit-test vectors (rolling.rs test_fdiff_coef, test_fdiff) exactly                   *)
+Theorem C01_fdiff_weight_recurrence :
+  forall (d : R) (k : nat),
+    fdiff_weight d 0 = 1%R /\
+    (fdiff_weight d (S k) = - fdiff_weight d k * ((d - INR k) / INR (S k)))%R.
+Proof. intros d k. split; [apply fdiff_weight_0|apply fdiff_weight_S]. Qed.
+
+Theorem C01_fdiff_weight_negative :
+  forall (d : R) (k : nat), (0 < d < 1)%R -> 1 <= k -> (fdiff_weight d k < 0)%R.
+Proof. exact fdiff_weight_negative. Qed.
+
+Theorem C01_fdiff_weight_decreasing :
+  forall (d : R) (k : nat), (0 < d < 1)%R -> 1 <= k -> (fdiff_weight d k < fdiff_weight d (S k))%R.
+Proof. exact fdiff_weight_decreasing. Qed.
+
+Theorem C01_fdiff_coef_unit_test_vector :
+  fdiff_coef (Some (/ 2)%R) 4 = [Some (- / 16)%R; Some (- / 8)%R; Some (- / 2)%R; Some 1%R].
+Proof. exact fdiff_coef_half_4. Qed.
+
+Theorem C01_ts_vfdiff_unit_test_vector :
+  forall body : bool,
+    exists out, ts_vfdiff (DT := IsNoneXR) body (Some (/ 2)%R) 4 None
+                  (map Some [7; 4; 2; 5; 1; 2]%R) = Done out /\
+      out = [None; Some (/ 2)%R; Some (- (7 / 8))%R; Some (49 / 16)%R; Some (- 2)%R; Some (3 / 4)%R].
+Proof. exact test_fdiff_vector. Qed.
+
 (* non-vacuity: a window with a null, warm-up and expiry *)
 Example C01_example_mean :
   exists out, ts_run (ts_vmean_f (A := XR) 2 (Some 1)) false 2 [Some 1%R; None; Some 3%R] = Done out
@@ -215,6 +497,50 @@ Proof.
   destruct (C01_ts_vmean false 2 (Some 1) [Some 1%R; None; Some 3%R] ltac:(auto)) as (out & H & L & _).
   exists out. split; assumption.
 Qed.
+
+(* non-vacuity of the new implications *)
+Example C01_example_vfdiff_masked_and_defined :       (* one series hits both branches of the mask *)
+  exists out, ts_vfdiff (DT := IsNoneXR) true (Some (/ 2)%R) 2 (Some 2) [Some 1%R; None; Some 3%R; Some 4%R] = Done out
+              /\ nth_error out 2 = Some None /\ nth_error out 3 = Some (Some (4 - / 2 * 3)%R).
+Proof.
+  destruct (C01_ts_vfdiff true (/ 2)%R 2 (Some 2) [Some 1%R; None; Some 3%R; Some 4%R] ltac:(auto))
+    as (out & H & _ & H3).
+  exists out. split; [exact H|]. split.
+  - rewrite (H3 2 ltac:(cbn; auto)). reflexivity.
+  - rewrite (H3 3 ltac:(cbn; auto)).
+    cbn [win wstart Nat.sub skipn firstn valid flat_map app length]. cbv zeta.
+    cbn [mp_eff Nat.min Nat.max Nat.leb]. rewrite fdiffR_two. reflexivity.
+Qed.
+
+Example C01_example_plain_family_fdiff :               (* w = 3, default min_periods = 3/2 = 1 *)
+  ts_fdiff false (Some (/ 2)%R) 3 (fun x : XR => x) (map Some [1%R; 2%R; 4%R])
+  = ts_vfdiff (DT := IsNoneXR) false (Some (/ 2)%R) 3 None (map Some [1%R; 2%R; 4%R]).
+Proof. apply C01_plain_family_fdiff; [auto|vm_compute; auto]. Qed.
+
+Example C01_example_warmup_mask :                      (* w = 4, min_periods 3: position 0 has S 0 < 3 *)
+  0 < length [1%R; 2%R; 4%R] /\ 1 < mp_eff (Some 3) 4 0.
+Proof. vm_compute. auto. Qed.
+
+Example C01_example_coef_integer :                     (* hypotheses of the integer-order theorems *)
+  nth_error (fdiff_coef (Some (INR 2)) 5) (5 - 1 - 3) = Some (Some 0%R) /\
+  nth_error (fdiff_coef (Some (INR 2)) 5) (5 - 1 - 1) = Some (Some ((-1) ^ 1 * C 2 1)%R).
+Proof.
+  split; [apply C01_fdiff_coef_integer_vanish|apply C01_fdiff_coef_integer_binomial]; auto.
+Qed.
+
+Example C01_example_coef_d1 :
+  fdiff_coef (Some 1%R) 4 = [Some 0%R; Some 0%R; Some (-1)%R; Some 1%R].
+Proof. apply (C01_fdiff_coef_d1 4). auto. Qed.
+
+Example C01_example_zero_variance :                    (* the floored class is inhabited *)
+  2 <= length (repeat 5%R 3) /\ ~ (EPS < popvarR (repeat 5%R 3))%R /\ (popvarR (repeat 5%R 3) <= EPS)%R.
+Proof.
+  rewrite C01_popvar_constant. pose proof EPS_pos as H. split; [cbn; auto|].
+  split; [apply Rlt_irrefl || (intros K; apply (Rlt_asym _ _ H); exact K)|apply Rlt_le; exact H].
+Qed.
+
+Example C01_example_fractional_order : (0 < / 2 < 1)%R /\ 1 <= 3.
+Proof. split; [lra|auto]. Qed.
 
 Print Assumptions C01_state_tracks_window.
 Print Assumptions C01_ts_vsum.
@@ -231,3 +557,38 @@ Print Assumptions C01_ts_fdiff.
 Print Assumptions C01_plain_family_moments.
 Print Assumptions C01_plain_family_ewm.
 Print Assumptions C01_plain_family_wma.
+Print Assumptions C01_ts_vfdiff.
+Print Assumptions C01_ts_vfdiff_textbook.
+Print Assumptions C01_ts_fdiff_textbook.
+Print Assumptions C01_fdiffR_cons.
+Print Assumptions C01_fdiffR_positional.
+Print Assumptions C01_vfdiff_depends_on_valid_only.
+Print Assumptions C01_vfdiff_nulls_shift_weights.
+Print Assumptions C01_vfdiff_current_null_not_null.
+Print Assumptions C01_fdiff_coef_length.
+Print Assumptions C01_binom_product.
+Print Assumptions C01_binom_recurrence.
+Print Assumptions C01_fdiff_coef_nth.
+Print Assumptions C01_fdiff_coef_last.
+Print Assumptions C01_fdiff_coef_integer_binomial.
+Print Assumptions C01_fdiff_coef_integer_vanish.
+Print Assumptions C01_fdiff_integer_order.
+Print Assumptions C01_fdiff_order0_identity.
+Print Assumptions C01_fdiff_coef_d1.
+Print Assumptions C01_ts_fdiff_d1_first_difference.
+Print Assumptions C01_plain_fdiff_vs_vfdiff.
+Print Assumptions C01_plain_family_fdiff.
+Print Assumptions C01_vfdiff_warmup_mask.
+Print Assumptions C01_plain_equals_null_aware.
+Print Assumptions C01_eps_floor_bounded_std.
+Print Assumptions C01_floor_guards_agree.
+Print Assumptions C01_popvar_constant.
+Print Assumptions C01_zero_variance_outputs.
+Print Assumptions C01_ewm_denominator_zero_iff.
+Print Assumptions C01_ts_vewm_total.
+Print Assumptions C01_fdiff_window0.
+Print Assumptions C01_fdiff_weight_recurrence.
+Print Assumptions C01_fdiff_weight_negative.
+Print Assumptions C01_fdiff_weight_decreasing.
+Print Assumptions C01_fdiff_coef_unit_test_vector.
+Print Assumptions C01_ts_vfdiff_unit_test_vector.
